@@ -110,6 +110,9 @@ def r_stmt(funcs, s, ind=0):
         return [f"{p}from {'.' * s[1]} import {s[2]}" + (f" as {s[3]}" if s[3] else "")]
     if k == "setctx":
         return [f"{p}pyscript.set_global_ctx(\"{'.'.join(s[1])}\")"]
+    if k == "sleep":
+        # a suspension point inside a function body (1 unit = 10 ms); the sequential model sees a local assignment
+        return [f"{p}task.sleep({r_atom(s[1])} / 100)"]
     raise ValueError(k)
 
 
@@ -130,6 +133,8 @@ def to_line(p):
             return ["fromdot", s[1], s[2], s[3] or "none"]
         if k == "spawn":
             return ["spawn", bool(s[1]), s[2], s[3]]
+        if k == "sleep":
+            return ["assign", "_sl", s[1]]
         return s
     funcs = [[n, ps, gl, [st(x) for x in b]] for n, ps, gl, b in p["funcs"]]
     files = [[path, [st(x) for x in b]] for path, b in p["files"]]
@@ -176,6 +181,40 @@ def _on_alarm(signum, frame):
 
 _ps_ready = False
 _all_ctx = []
+_call_viol = []          # pointer-restore violations seen by the probe around EvalFunc.call
+_probe_installed = False
+
+
+def install_call_probe():
+    """wrap EvalFunc.call: the evaluator's four pointers (object identities, stack depth) after EVERY call - normal
+    return, exception, overlapping activations in other tasks - must be the ones before it (generated programs use
+    set_global_ctx at top level only, never inside a call)"""
+    global _probe_installed
+    if _probe_installed:
+        return
+    import functools
+    from custom_components.pyscript.eval import EvalFunc
+    orig = EvalFunc.call
+
+    def snap(a):
+        return (id(a.global_sym_table), id(a.sym_table), id(a.sym_table_stack), len(a.sym_table_stack), id(a.global_ctx))
+
+    @functools.wraps(orig)
+    async def call(self, ast_ctx, *args, **kwargs):
+        before = snap(ast_ctx)
+        name_before = ast_ctx.global_ctx.get_name() if ast_ctx.global_ctx else None
+        try:
+            return await orig(self, ast_ctx, *args, **kwargs)
+        finally:
+            after = snap(ast_ctx)
+            if after != before and len(_call_viol) < 20:
+                what = [n for n, x, y in zip(("global_sym_table", "sym_table", "sym_table_stack", "stack depth", "global_ctx"),
+                                             before, after) if x != y]
+                _call_viol.append(f"{self.get_name()}@{self.global_ctx.get_name()} called from {name_before}: "
+                                  f"{'/'.join(what)} changed (global_ctx now {ast_ctx.global_ctx.get_name()})")
+
+    EvalFunc.call = call
+    _probe_installed = True
 
 
 def _ps_setup(loop):
@@ -204,6 +243,7 @@ def _ps_setup(loop):
         GlobalContext.__init__ = tracked
         _ps_ready = True
     TrigTime.hass = hass
+    install_call_probe()
     return hass
 
 
@@ -277,6 +317,7 @@ async def ps_run(p, root):
     GlobalContextMgr.contexts.clear()
     Function.our_tasks.clear()
     del _all_ctx[:]
+    del _call_viol[:]
     evals = []
     for name, rel in p["ctxs"]:
         nm = ".".join(name)
@@ -343,6 +384,10 @@ class _TaskShim:
             f(*a, **kw)
         except Exception:  # pylint: disable=broad-except
             pass
+
+    @staticmethod
+    def sleep(*a):
+        return None
 
 
 def _py_label_of_file(root, fn):
@@ -558,6 +603,79 @@ def scenarios():
     return out
 
 
+def reentrant_case(rng):
+    """a function of the module is active twice through a callback into the caller's context:
+    nest -> m1.apply(k) -> k -> m1.apply(0) (calling 0 raises TypeError inside apply's try: the recursion ends).
+    The outer caller's locals, read after the call, and the pointers at every return are what is at stake."""
+    v0, v1, v2 = rng.randrange(2, 9), rng.randrange(10, 19), rng.randrange(20, 29)
+    two_ctx = rng.random() < 0.5            # the callback lives in a second file
+    top_level = rng.random() < 0.3          # the outer call is a top-level statement
+    levels = rng.choice([1, 1, 2])          # how many callbacks re-enter before the chain ends
+    funcs = [
+        # m1.apply(cb, v): global side effect, a local before and after the call of cb
+        ["apply", ["cb", "v"], ["x"], [["add", "x", V("x"), V("v")], ["add", "t", V("v"), L(v0)],
+                                       ["try", [["call", "r", V("cb"), []]], [["assign", "e", L(1)]]],
+                                       ["add", "u", V("t"), L(1)], ["ret", V("u")]]],
+        # the innermost callback: re-enters apply with something that is not callable
+        ["k", [], ["y"], [["assign", "t", L(v1)], ["call", "q", A("m1", "apply"), [L(0), L(2)]], ["add", "y", V("t"), V("q")],
+                           ["ret", V("t")]]],
+        # a middle callback (levels == 2): re-enters apply with k
+        ["k2", [], ["z"], [["assign", "t", L(v2)], ["call", "q", A("m1", "apply"), [V("kk"), L(3)]], ["add", "z", V("t"), V("q")],
+                            ["ret", V("t")]]],
+        # the outer caller: a local before the cross-file call, used afterwards
+        ["nest", [], ["w"], [["assign", "t", L(v2 + 7)], ["call", "q", A("m1", "apply"), [V("cbk"), L(1)]],
+                             ["add", "w", V("t"), V("q")], ["ret", V("t")]]],
+    ]
+    files = [[["modules", "m1"], [["assign", "x", L(100)], ["def", "apply", 0]]]]
+    cb_ctx = 1 if two_ctx else 0
+    ctxs = [S1, S2] if two_ctx else [S1]
+    ops = [["run", 0, ["import", ["m1"], None]], ["run", 0, ["assign", "y", L(0)]], ["run", 0, ["assign", "z", L(0)]],
+           ["run", 0, ["assign", "w", L(0)]]]
+    if two_ctx:
+        ops += [["run", 1, ["import", ["m1"], None]], ["run", 1, ["assign", "y", L(0)]], ["run", 1, ["assign", "z", L(0)]],
+                ["run", 1, ["def", "k", 1]], ["run", 1, ["assign", "kk", V("k")]], ["run", 1, ["def", "k2", 2]],
+                ["run", 0, ["from", ["m1"], 0, [["x", "x0"]]]]]
+        # hand the callbacks of file s2 to file s1 through the module object
+        ops += [["run", 1, ["setattr", "m1", "cb1", V("k")]], ["run", 1, ["setattr", "m1", "cb2", V("k2")]],
+                ["run", 0, ["assign", "cbk", A("m1", "cb1" if levels == 1 else "cb2")]]]
+    else:
+        ops += [["run", 0, ["def", "k", 1]], ["run", 0, ["assign", "kk", V("k")]], ["run", 0, ["def", "k2", 2]],
+                ["run", 0, ["assign", "cbk", V("k" if levels == 1 else "k2")]]]
+    ops += [["run", 0, ["def", "nest", 3]]]
+    if top_level:
+        ops += [["run", 0, ["call", "res", A("m1", "apply"), [V("cbk"), L(1)]]], ["run", 0, ["add", "w", V("res"), L(1)]]]
+    else:
+        ops += [["run", 0, ["call", "res", V("nest"), []]]]
+    ops += [["run", 0, ["call", "res2", V("nest"), []]], ["run", cb_ctx, ["call", "res3", V("k"), []]]]
+    return {"kind": "interp", "tag": "reentrant", "funcs": funcs, "files": files, "ctxs": ctxs, "ops": ops,
+            "tags": ["reentrant-callback", "two-files" if two_ctx else "one-file", "levels-%d" % levels]}
+
+
+def overlap_case(rng):
+    """two tasks are inside one module function at the same time (it suspends); the later entrant returns first"""
+    d1, d2 = rng.randrange(4, 8), rng.randrange(1, 3)
+    two_ctx = rng.random() < 0.5
+    funcs = [
+        ["slow", ["d"], ["cnt"], [["add", "cnt", V("cnt"), L(1)], ["add", "t", V("d"), L(100)], ["sleep", V("d")],
+                                  ["ret", V("t")]]],
+        ["wa", ["a"], ["xa"], [["add", "t", V("a"), L(10)], ["call", "r", A("m1", "slow"), [L(d1)]], ["add", "xa", V("t"), V("r")]]],
+        ["wb", ["a"], ["xb"], [["add", "t", V("a"), L(20)], ["call", "r", A("m1", "slow"), [L(d2)]], ["add", "xb", V("t"), V("r")]]],
+        ["both", [], [], [["spawn", False, V("wa"), [L(1)]], ["spawn", False, V("wb2"), [L(2)]], ["ret", L(0)]]],
+    ]
+    files = [[["modules", "m1"], [["assign", "cnt", L(0)], ["def", "slow", 0]]]]
+    ctxs = [S1, S2] if two_ctx else [S1]
+    ops = [["run", 0, ["import", ["m1"], None]], ["run", 0, ["def", "wa", 1]]]
+    if two_ctx:
+        ops += [["run", 1, ["import", ["m1"], None]], ["run", 1, ["def", "wb", 2]], ["run", 1, ["setattr", "m1", "hook", V("wb")]],
+                ["run", 0, ["assign", "wb2", A("m1", "hook")]]]
+    else:
+        ops += [["run", 0, ["def", "wb", 2]], ["run", 0, ["assign", "wb2", V("wb")]]]
+    ops += [["run", 0, ["def", "both", 3]], ["run", 0, ["call", "res", V("both"), []]],
+            ["run", 0, ["call", "res", V("both"), []]]]
+    return {"kind": "interp", "tag": "overlap", "funcs": funcs, "files": files, "ctxs": ctxs, "ops": ops,
+            "tags": ["overlapping-activations", "two-files" if two_ctx else "one-file"]}
+
+
 def run_three(p):
     """(impl, oracle, restored) for one interp-level case; the model column comes from the driver"""
     root = tempfile.mkdtemp(prefix="pysc_c11_")
@@ -574,7 +692,7 @@ def run_three(p):
         shutil.rmtree(root, ignore_errors=True)
     impl = " ".join(outs) + ((" | " + tabs) if tabs is not None else "")
     orc = " ".join(pouts) + ((" | " + ptabs) if ptabs is not None else "")
-    return impl, orc, restored
+    return impl, orc, restored, list(_call_viol)
 
 
 # --------------------------------------------------------------------------------------------- generator
@@ -946,8 +1064,12 @@ def st_{i}(value=None, **kw):
 @service
 def tsk_{i}(a=None):
     task.create({w}, a)
+
+@event_trigger("ov_{i}")
+def otrg_{i}(a=None, d=None, **kw):
+    v{i}(a, d)
 '''
-HA_SKIP = ("svc_", "trg_", "st_", "tsk_")
+HA_SKIP = ("svc_", "trg_", "st_", "tsk_", "otrg_")
 
 
 def gen_ha_case(rng):
@@ -957,6 +1079,10 @@ def gen_ha_case(rng):
     g.gen_file("m1", ["modules", "m1"], "mod", None, [])
     if g.chance(0.5):
         g.gen_file("m2", ["modules", "m2"], "mod", None, ["m1"])
+    # a module function that suspends: two callers from different files are inside it at the same time
+    slow_fid = len(g.funcs)
+    g.funcs.append(["slow", ["d"], ["cnt"], [["add", "cnt", V("cnt"), L(1)], ["sleep", V("d")], ["ret", V("d")]]])
+    g.files["m1"].body += [["assign", "cnt", L(0)], ["def", "slow", slow_fid]]
     mains = [("file.s1", ["s1"], None, None), ("file.s2", ["s2"], None, None)]
     if g.chance(0.4):
         g.gen_file("app.other", ["apps", "app1", "other"], "appsub", "app", [])
@@ -990,6 +1116,13 @@ def gen_ha_case(rng):
         fid = len(g.funcs)
         g.funcs.append([f"w{i}", ["a"], ["x"], eb])
         body.append(["def", f"w{i}", fid])
+        # the overlapping entry: a local before the cross-file call that suspends, used after it
+        body.append(["import", ["m1"], "msl"])
+        fid = len(g.funcs)
+        g.funcs.append([f"v{i}", ["a", "d"], ["ov"], [["add", "t", V("a"), L(10 * (i + 1))],
+                                                       ["call", "r", A("msl", "slow"), [V("d")]],
+                                                       ["add", "ov", V("t"), V("r")]]])
+        body.append(["def", f"v{i}", fid])
         ctxs.append([label.split("."), rel])
         bodies.append((path, body))
         entries.append(i)
@@ -997,18 +1130,28 @@ def gen_ha_case(rng):
     for _ in range(rng.randrange(3, 8)):
         i = g.pick(entries)
         events.append([g.pick(["service", "event", "state", "task"]), i, rng.randrange(1, 30)])
+    # one or two pairs of overlapping runs: the first caller sleeps longer, so the LATER one returns first
+    for _ in range(rng.randrange(1, 3)):
+        i, j = rng.sample(entries, 2)
+        events.insert(rng.randrange(len(events) + 1), ["pair", i, [j, rng.randrange(1, 30), rng.randrange(20, 40), rng.randrange(2, 12)]])
     ops = []
     for i, (path, body) in enumerate(bodies):
         ops += [["run", i, s] for s in body]
     seen_state = {}
+    evs = []
     for kind, i, a in events:
+        if kind == "pair":
+            j, av, d1, d2 = a
+            ops.append(["run", i, ["spawn", True, V(f"v{i}"), [L(av), L(d1)]]])
+            ops.append(["run", j, ["spawn", True, V(f"v{j}"), [L(av + 1), L(d2)]]])
+            evs.append([kind, i, a])
+            continue
         if kind == "state" and seen_state.get(i) == a:
             a += 1                        # a state trigger needs a change of value
         if kind == "state":
             seen_state[i] = a
         ops.append(["run", i, ["spawn", kind != "task", V(f"w{i}"), [L(a)]]])
-    # recompute the adjusted event values from the ops (keeps both in sync)
-    evs = [[k, i, op[2][3][0][1]] for (k, i, _), op in zip(events, ops[-len(events):])]
+        evs.append([kind, i, a])
     return {"kind": "ha", "tag": "ha", "funcs": g.funcs, "files": [[g.files[f].path, g.files[f].body] for f in g.order],
             "ctxs": ctxs, "mainfiles": [[p, b] for p, b in bodies], "events": evs, "ops": ops,
             "tags": sorted(g.tags | {"ha"} | {"entry-" + e[0] for e in evs})}
@@ -1036,6 +1179,12 @@ def ha_run(p, legacy):
     async def body(env):
         await env.settle(0.05)
         for kind, i, a in p["events"]:
+            if kind == "pair":
+                j, av, d1, d2 = a
+                await env.fire(f"ov_{i}", {"a": av, "d": d1}, settle=False)
+                await env.fire(f"ov_{j}", {"a": av + 1, "d": d2}, settle=False)
+                await env.settle(1.0)
+                continue
             if kind == "service":
                 await env.call("pyscript", f"svc_{i}", {"a": a})
             elif kind == "task":
@@ -1058,9 +1207,12 @@ def ha_run(p, legacy):
         return " ".join(sorted(out))
 
     GlobalContext.__init__ = tracked
+    install_call_probe()
+    del _call_viol[:]
     try:
         extra = {"apps": {"app1": {}}} if any(n[0] == "apps" for n, _ in p["ctxs"]) else None
-        return ha_env.run_ha(ha_sources(p), legacy, body, extra_cfg=extra)
+        tabs = ha_env.run_ha(ha_sources(p), legacy, body, extra_cfg=extra)
+        return tabs, list(_call_viol)
     finally:
         GlobalContext.__init__ = orig
 
@@ -1087,6 +1239,10 @@ def gen_cases(rng, tier, search):
     cases = []
     for sc in scenarios():
         cases.append(Case(sc, to_line(sc), tags=("scenario", sc["tag"])))
+    for _ in range(12 if tier == "quick" else 60):
+        for mk in (reentrant_case, overlap_case):
+            p = mk(rng)
+            cases.append(Case(p, to_line(p), tags=tuple(["interp", p["tag"]] + p["tags"])))
     for _ in range(n_rand):
         p = ProgGen(rng).build()
         cases.append(Case(p, to_line(p), tags=tuple(["interp"] + p["tags"])))
@@ -1104,16 +1260,17 @@ def _run_one(payload):
         if payload["kind"] == "ha":
             signal.signal(signal.SIGPROF, _on_alarm)
             signal.setitimer(signal.ITIMER_PROF, 60.0)
+            cviol = []
             try:
-                tabs = ha_run(payload, payload["legacy"])
+                tabs, cviol = ha_run(payload, payload["legacy"])
             except _WallTimeout:
                 tabs = "diverges"
             finally:
                 signal.setitimer(signal.ITIMER_PROF, 0)
             orc = ha_oracle(payload)
-            return {"impl_tabs": tabs, "oracle_tabs": orc}
-        impl, orc, restored = run_three(payload)
-        return {"impl": impl, "oracle": orc, "restored": restored}
+            return {"impl_tabs": tabs, "oracle_tabs": orc, "call_restore": cviol}
+        impl, orc, restored, cviol = run_three(payload)
+        return {"impl": impl, "oracle": orc, "restored": restored, "call_restore": cviol}
     except BaseException as e:  # pylint: disable=broad-except
         import traceback
         return {"crash": f"{type(e).__name__}: {e}", "tb": traceback.format_exc()[-1500:]}
@@ -1161,6 +1318,8 @@ common._execute = _execute
 
 def verdict(c):
     r = c.payload.get("_run", {})
+    if r.get("call_restore"):
+        return "evaluator pointers not restored after a call: " + r["call_restore"][0]
     if c.payload["kind"] == "ha":
         if r["impl_tabs"] != r["oracle_tabs"]:
             return "global tables differ from CPython (HA family): " + _first_diff(r["impl_tabs"], r["oracle_tabs"])
@@ -1302,7 +1461,7 @@ def extra_coverage(cases):
 
 if __name__ == "__main__":
     for sc in scenarios():
-        impl, orc, rest = run_three(sc)
+        impl, orc, rest, _cv = run_three(sc)
         line = to_line(sc)
         mod = common.drive([line])[0]
         print("==", sc["tag"])
